@@ -87,21 +87,23 @@ def Parses (T : Str) (L : List M) : Prop :=
       ∀ acc res, (∃ f', parseRest charTS f' (acc ++ tl) ⟨lastOr w3 (lastOr T none), K'⟩ = .ok res) →
         ∃ f'', parseRest charTS f'' acc s1 = .ok res
 
-/-- nothing the `BOOLOP` rule could match: the end, or `)` -/
-def StopK (K : Str) : Prop := K = [] ∨ K.head? = some 41
+/-- nothing the `BOOLOP` rule could match: the end, `)`, or the final newline -/
+def StopK (K : Str) : Prop := K = [] ∨ K.head? = some 41 ∨ K.head? = some 10
 
 theorem stopK_noWs {K : Str} (h : StopK K) : NoWsHead K := by
-  rcases h with rfl | h
+  rcases h with rfl | h | h
   · intro c hc; cases hc
   · exact noWsHead_of_head (c := 41) h (by decide) (by decide)
+  · exact noWsHead_of_head (c := 10) h (by decide) (by decide)
 
 theorem boolop_none (p : Option Nat) (K : Str) (h : StopK K) : charTS.check .boolop ⟨p, K⟩ = none := by
   rw [check_charTS]
   apply check_none_by_head .boolop (by decide)
   intro c hc
   rw [heads_all.2.2.2.2.1]
-  rcases h with rfl | h
+  rcases h with rfl | h | h
   · cases hc
+  · simp only at hc; rw [h] at hc; cases hc; decide
   · simp only at hc; rw [h] at hc; cases hc; decide
 
 /-- `_parse_marker` on the text of a whole (sub)expression in front of the end or `)` -/
@@ -166,7 +168,7 @@ theorem parses_paren {T : Str} {L : List M} (h : Parses T L) (hh : HeadOK T) (w1
   have e0 : 40 :: (w1 ++ (T ++ (w2 ++ [41]))) ++ (w3 ++ K') = 40 :: (w1 ++ (T ++ (w2 ++ (41 :: (w3 ++ K'))))) := by simp
   have hl : lastOr (40 :: (w1 ++ (T ++ (w2 ++ [41])))) none = some 41 := by
     rw [show w1 ++ (T ++ (w2 ++ [41])) = (w1 ++ (T ++ w2)) ++ [41] by simp]; exact lastOr_paren _ _
-  have hK1 : StopK (41 :: (w3 ++ K')) := Or.inr rfl
+  have hK1 : StopK (41 :: (w3 ++ K')) := Or.inr (Or.inl rfl)
   obtain ⟨f, hm⟩ := marker_of_parses h (lastOr w1 (some 40)) w2 (41 :: (w3 ++ K')) hw2 hK1
     (fun _ => notWord_after_ws w1 hw1 _ (fun _ => by simpa [isWordO] using notWord_punct 40 (by simp)))
     (fun _ => by
@@ -326,24 +328,28 @@ theorem parses_render : (ℓ : ExprLay) → (t : Formula) → FitsLex ℓ t → 
     obtain ⟨c, t, e, hc⟩ := l2
     exact ⟨c, _, by rw [e]; rfl, hc⟩
 
+/-- the optional final newline (`$` of the `END` rule matches before it) -/
+def nlTail (nl : Bool) : Str := if nl then [10] else []
+
 /-- **the real entry point on any layout**: tokenizer and parser, run on the formula written with leading and
-trailing white space `w0`, `w3` and the layout `ℓ`, return the list `flat ℓ t` -/
-theorem parse_renderE (ℓ : ExprLay) (t : Formula) (h : FitsLex ℓ t) (w0 w3 : Str) (hw0 : WsRun w0) (hw3 : WsRun w3) :
-    Mk.parse (w0 ++ (renderE ℓ t ++ w3)) = .ok (flat ℓ t) := by
+trailing white space `w0`, `w3`, the layout `ℓ` and possibly a final newline, return the list `flat ℓ t` -/
+theorem parse_renderE (ℓ : ExprLay) (t : Formula) (h : FitsLex ℓ t) (w0 w3 : Str) (hw0 : WsRun w0) (hw3 : WsRun w3) (nl : Bool) :
+    Mk.parse (w0 ++ (renderE ℓ t ++ (w3 ++ nlTail nl))) = .ok (flat ℓ t) := by
   obtain ⟨hp, hh⟩ := parses_render ℓ t h
-  obtain ⟨f, hm⟩ := marker_of_parses hp (lastOr w0 none) w3 [] hw3 (Or.inl rfl)
+  have hstop : StopK (nlTail nl) := by cases nl <;> simp [nlTail, StopK]
+  obtain ⟨f, hm⟩ := marker_of_parses hp (lastOr w0 none) w3 (nlTail nl) hw3 hstop
     (fun _ => notWord_after_ws w0 hw0 none (fun _ => rfl))
     (fun _ => by
       by_cases hne : w3 = []
-      · subst hne; simp [endFollows]
-      · rcases head_ws w3 hw3 hne [] with e | e <;> rw [e] <;> simp [endFollows])
-  have sc := consume_ws_run w0 (renderE ℓ t ++ (w3 ++ [])) hw0 (hh.noWs _) none
-  have hm' := marker_lift hm (fuelFor (w0 ++ (renderE ℓ t ++ w3)).length) (by
-    simp only [fuelFor, List.length_append, List.length_nil]; omega)
+      · subst hne; cases nl <;> simp [endFollows, nlTail]
+      · rcases head_ws w3 hw3 hne (nlTail nl) with e | e <;> rw [e] <;> simp [endFollows])
+  have sc := consume_ws_run w0 (renderE ℓ t ++ (w3 ++ nlTail nl)) hw0 (hh.noWs _) none
+  have hm' := marker_lift hm (fuelFor (w0 ++ (renderE ℓ t ++ (w3 ++ nlTail nl))).length) (by
+    simp only [fuelFor, List.length_append]; omega)
   unfold Mk.parse parseFull
-  rw [parseMarker_consume]
-  simp only [List.append_nil] at sc hm'
-  rw [sc, hm']
-  simp [bind, Except.bind, check_charTS, check_end_nil, pure, Except.pure]
+  rw [parseMarker_consume, sc, hm']
+  cases nl
+  · simp [nlTail, bind, Except.bind, check_charTS, check_end_nil, pure, Except.pure]
+  · simp [nlTail, bind, Except.bind, check_charTS, check_end_nl, pure, Except.pure]
 
 end MkLay
